@@ -48,6 +48,22 @@ CLAIMS = {
              "decides it per case (known finding D9: Name/Single over Optional).",
         note="c04_sentence_sound needs Scope (no trims, TermGood terminals); c04_xor needs nothing.",
         technique="Lean 4 theorems over the parse/evaluate model (case analysis of Parse, derivation inversion for Sentence, induction for the evaluator) + oracle on the real Parse/Evaluate under recover + differential correspondence"),
+    "C07": dict(
+        text="Machine-checked proof (Lean 4) on a slice-level state machine (heap of node objects and arrays, slice headers with len/cap, "
+             "append that writes in place when len < cap and reallocates otherwise under ANY growth policy) onto which AppendNode, "
+             "NodeList.Append, the sequence buffer and the copying result handler, Optional's append, Memoize's store (with the "
+             "capacity clip of fix D1) and hit, and SetReaderPos are transcribed: for every operation history without in-place "
+             "SetReaderPos on shared handles, every handle ever returned renders at the end exactly as when it was returned "
+             "(c07_frame, c07_returned), a memoized result asked again is the same handle with the same rendering (c07_memo_stable); "
+             "PARTIAL around known finding D5: with trimming restricted to unshared handles all other handles are unaffected "
+             "(c07_trim_partial, c07_trim_local), and c07_trim_shared_mutates exhibits the D5 mutation; c07_pinned_corrupts shows the "
+             "pre-fix machine (no clip) does corrupt a held list, so the theorems are not artefacts of a model without aliasing. "
+             "Tied to the code by two streams: random operation histories on the REAL ast package / Memoize / Any / Optional / SeqOf "
+             "with every pool value re-rendered after every operation and compared with the machine, and parse-level probes that "
+             "render every parser's result at return time and again at the end of the parse.",
+        note="Known finding D5 (RightTrim mutates shared nodes in place) is reported as KNOWN-FINDING, identified by its structural "
+             "signature. The linear-use discipline of un-cached lists is enforced by the machine and is how the combinators use them.",
+        technique="Lean 4 frame/invariant proof over operation histories on a slice heap (every growth policy) + two differential streams (operation histories on the real ast/combinator code; parse-level render-at-return probes)"),
     "C09": dict(
         text="Machine-checked proof (Lean 4) that every reader primitive of the model (own cursor computation, own guards, every index "
              "through get?) equals a byte-level specification over the rest of the file, stays within the file and never indexes "
